@@ -483,7 +483,11 @@ class FunctionEngine(CallsMixin, Engine):
             ln, arr = self.seq_parts(cur, st)
             ol, oa = self.seq_parts(o, st)
             i = z3.Int(fresh_name('i'))
-            self.store(cur, T.seq_mk(cur.ty, ln + ol, z3.Lambda([i], z3.If(i < ln, T.Sel(arr, i), T.Sel(oa, i - ln)))), st)
+            carr = z3.Lambda([i], z3.If(i < ln, T.Sel(arr, i), T.Sel(oa, i - ln)))
+            if not hasattr(self, 'concat_prov'):
+                self.concat_prov = {}
+            self.concat_prov[carr.get_id()] = (carr, ln, arr, ol, oa)
+            self.store(cur, T.seq_mk(cur.ty, ln + ol, carr), st)
             if isinstance(tgt, ast.Name):
                 st.env[tgt.id] = cur
             return self.with_raises(st, [(st, NORMAL)])
@@ -505,6 +509,7 @@ class FunctionEngine(CallsMixin, Engine):
             if isinstance(tgt, ast.Subscript):
                 obj = self.eval(tgt.value, st)
                 if obj.ty.kind == 'Dict':
+                    self.refuse_total_dict(obj, 'del')
                     key = self.coerce(self.eval(tgt.slice, st), obj.ty.args[0], st)
                     d = self.load(obj, st)
                     kt = self.as_term(key, st)
@@ -789,12 +794,19 @@ class FunctionEngine(CallsMixin, Engine):
                         continue   # `for i, x in enumerate(L): L[i] = ...` reads every element before it is written
                     raise Unsupported('loop body mutates the sequence it iterates over')
         n = m.n
+        # `seq`: the name under which the invariants see the sequence that is iterated (e.g. the list a call returned)
+        seqenv = {}
+        if (spec or {}).get('seq'):
+            if itv.ty.kind in ('List', 'Np1'):
+                seqenv[spec['seq']] = itv
+            else:
+                raise Unsupported('loop contract `seq` on an iterable that is not a list value')
         # inv-init with k = 0
-        self.check_invs(st, spec, 'inv-init', sig, {kname: V(INT, I0)}, pre)
+        self.check_invs(st, spec, 'inv-init', sig, dict(seqenv, **{kname: V(INT, I0)}), pre)
         self.havoc_loop(st, s.body, spec, extra_names=self.target_names(s.target))
         k = z3.Int(fresh_name('k'))
         st.assume(z3.And(0 <= k, k <= n))
-        self.assume_invs(st, spec, {kname: V(INT, k)}, pre)
+        self.assume_invs(st, spec, dict(seqenv, **{kname: V(INT, k)}), pre)
         out = []
         # (A) one more iteration
         a = st.copy()
@@ -804,9 +816,15 @@ class FunctionEngine(CallsMixin, Engine):
             self.bind_target(s.target, m.item(k, a), a)
             if kname != '_k' or True:
                 a.env['!k:' + sig] = V(INT, k)
+            if spec:
+                # ghost names of this loop (index, iterated sequence) are visible to the contracts of nested loops
+                for gn, gv in dict(seqenv, **({kname: V(INT, k)} if kname != '_k' else {})).items():
+                    if gn in names or gn in a.env:
+                        raise Unsupported(f'loop ghost name {gn} clashes with a program variable')
+                    a.env[gn] = gv
             for (cur, o) in self.exec_block(s.body, a):
                 if o.kind in ('normal', 'continue'):
-                    self.check_invs(cur, spec, 'inv-step', sig, {kname: V(INT, k + 1)}, pre)
+                    self.check_invs(cur, spec, 'inv-step', sig, dict(seqenv, **{kname: V(INT, k + 1)}), pre)
                 elif o.kind == 'break':
                     cur.trace.append('break')
                     out.append((cur, NORMAL))
